@@ -150,6 +150,14 @@ fn perturb(v: &RVal, p: &Pert) -> (RVal, &'static str) {
                 t.push('x');
                 label = "xstr:type-changed";
             }
+            RVal::DateTime(d) if op % 4 == 3 => {
+                // same zone, an hour (or a second) earlier or later: around a change of offset two instants of one
+                // zone share their wall-clock reading
+                let z = zones::zone_by_id(&d.tz).expect("zone");
+                d.secs += [3600, -3600, 1800, -1][aux as usize % 4];
+                d.offset = zones::offset_at(&z.tz, d.secs);
+                label = "datetime:same-zone-shifted";
+            }
             RVal::DateTime(d) => {
                 // same instant in another zone
                 let zs = zones::zones();
@@ -451,6 +459,30 @@ fn has_mixed_units(t: &Triple) -> bool {
     units.len() > 1
 }
 
+/// The same value with every unit replaced by a separate `Unit` instance of identical content (units are plain
+/// data with public fields: an application may build its own, or hold a copy). Instances are leaked once per unit.
+fn with_unit_copies(v: &Value) -> Value {
+    use std::collections::HashMap;
+    use std::sync::Mutex;
+    static COPIES: std::sync::OnceLock<Mutex<HashMap<usize, &'static libhaystack::units::Unit>>> = std::sync::OnceLock::new();
+    fn copy_of(u: &'static libhaystack::units::Unit) -> &'static libhaystack::units::Unit {
+        let mut m = COPIES.get_or_init(|| Mutex::new(HashMap::new())).lock().unwrap();
+        *m.entry(u as *const _ as usize).or_insert_with(|| Box::leak(Box::new(u.clone())))
+    }
+    match v {
+        Value::Number(n) => Value::Number(Number { value: n.value, unit: n.unit.map(copy_of) }),
+        Value::List(l) => Value::make_list(l.iter().map(with_unit_copies).collect()),
+        Value::Dict(d) => {
+            let mut out = Dict::new();
+            for (k, x) in d.iter() {
+                out.insert(k.clone(), with_unit_copies(x));
+            }
+            Value::make_dict(out)
+        }
+        other => other.clone(),
+    }
+}
+
 pub fn check_triple_opt(t: &Triple, rec: &mut Rec, strict_std_sort: bool) -> Verdict {
     let mixed_units = has_mixed_units(t);
     if mixed_units {
@@ -475,6 +507,17 @@ pub fn check_triple_opt(t: &Triple, rec: &mut Rec, strict_std_sort: bool) -> Ver
             }
             if h1(&v.clone()) != h1(v) {
                 return fail("clone-hash", rv, rv, "");
+            }
+            // equality, hash and order look at what a unit *is*, not at which instance of it a Number points to
+            let w = with_unit_copies(v);
+            if &w != v {
+                return fail("unit-instance:eq", rv, rv, "the same value over separate Unit instances of equal content is not ==");
+            }
+            if h1(&w) != h1(v) || h2(&w) != h2(v) {
+                return fail("unit-instance:eq-implies-hash", rv, rv, "equal values (units are separate instances of equal content) hash differently");
+            }
+            if w.cmp(v) != Ordering::Equal {
+                return fail("unit-instance:cmp", rv, rv, "");
             }
         }
         for (rx, ry, x, y) in [(&t.a, &t.b, &a, &b), (&t.b, &t.c, &b, &c), (&t.a, &t.c, &a, &c)] {
